@@ -66,22 +66,33 @@ def forward(ctx, chk, suf, mode, fac):
     PRE = DOC_PREFIX[mode]
     se.nonneg = lambda t: t.startswith('esc#')
     escname = 'uriEscapeEx' + suf
-    # roles of the pointer locals, read off the code: the output cursor starts at the output parameter, the scan pointer at the
-    # input parameter, the separator pointer at scan - 1
+    # roles of the pointer locals, read off their values on first arrival at the loop: the output cursor points into the output
+    # buffer, the scan pointer at the first character of the name, the separator pointer one before it
+    pre = SymExec(ctx.prog, f, cs)
+    pre.stop_blocks = set(pre.loops.keys())
+    pre.on_call = lambda se_, i, st, args: (Lin.const(len(literal_text(args[0].base))) if call_target(i) in ('strlen', 'wcslen')
+                                            and isinstance(args[0], Ptr) and literal_text(args[0].base) is not None else None)
+    st0 = PState()
+    st0.env[fn_p] = Ptr('fn')
+    st0.env[out_p] = Ptr('out')
+    st0.env[mode_p] = Lin.const(mode)
+    st0.notes[('nonnull', 'fn')] = True
+    st0.notes[('nonnull', 'out')] = True
+    pre.run(st0)
     roles = {}
-    for b in f.blocks:
-        for i in b.ins:
-            if i.op == 'assign' and i.dst is not None and i.dst.k == 'ref' and i.dst.v in ptr_locals and i.dst.v not in roles.values():
-                from ..cfgutil import expr_key
-                sk = expr_key(i.src)
-                if sk == out_p and 'cursor' not in roles:
-                    roles['cursor'] = i.dst.v
-                elif sk == fn_p and 'scan' not in roles:
-                    roles['scan'] = i.dst.v
-                elif 'scan' in roles and sk in ('(%s - 1)' % roles['scan'], '%s - 1' % roles['scan']) and 'sep' not in roles:
-                    roles['sep'] = i.dst.v
-        if len(roles) == 3:
-            break
+    for bid, sst in pre.stops:
+        found = {}
+        for v in ptr_locals:
+            val = sst.env.get(v)
+            if isinstance(val, Ptr) and val.base == 'out':
+                found.setdefault('cursor', set()).add(v)
+            elif isinstance(val, Ptr) and val.base == 'fn' and val.off.is_const() and val.off.c == 0:
+                found.setdefault('scan', set()).add(v)
+            elif isinstance(val, Ptr) and val.base == 'fn' and val.off.is_const() and val.off.c == -1:
+                found.setdefault('sep', set()).add(v)
+        for k, vs in found.items():
+            roles[k] = vs if k not in roles else (roles[k] & vs)
+    roles = dict((k, sorted(vs)[0]) for k, vs in roles.items() if len(vs) == 1)
     if len(roles) != 3:
         raise AnalysisBroken('%s: output cursor / scan pointer / separator pointer not recognised (%r)' % (name, roles))
     cur, scan, sep = roles['cursor'], roles['scan'], roles['sep']
